@@ -62,6 +62,16 @@ pub fn zinc_roundtrip(v: &V) -> Verdict {
         }
         _ => {}
     }
+    // a clone (made after the original was encoded once, and encoded after the original is gone)
+    // has the same text
+    {
+        let c = lv.clone();
+        drop(lv);
+        match guarded(|| to_zinc_string(&c)) {
+            Ok(Ok(t2)) if t2 == text => {}
+            other => return Err(("clone-encodes-differently".into(), format!("original {text:?}, clone {other:?}"))),
+        }
+    }
     let back = match guarded(|| from_str(&text)) {
         Err(p) => return Err(("decode-panic".into(), format!("{p}; text={text:?}"))),
         Ok(Err(e)) => return Err(("decode-error".into(), format!("{e}; text={text:?}"))),
